@@ -309,3 +309,66 @@ func init() {
 	Registry["w2.nvquorum"] = scenNonVoterQuorum
 	_ = fmt.Sprintf
 }
+
+// scenPromoteSplit: a new voter is added (3 -> 4 or 1 -> 2 voters) and, while that change is pending, the leader
+// and the new voter are cut off from the other voters: exactly half of the new configuration must not be able
+// to commit anything, while the others may legitimately go on under the configuration they know.
+func scenPromoteSplit(x *Ctx) {
+	r := x.R
+	n := []int{3, 3, 1}[r.Intn(3)]
+	all, a, ok := x.startStatic(n)
+	if !ok {
+		return
+	}
+	x.Writes(1, a, 3, time.Second)
+	if r.Intn(2) == 0 {
+		if !x.addServer(a, "d", false) { // synced non-voter first, then promoted
+			x.Inconclusive("could not add the non-voter")
+			return
+		}
+		a = x.C.Leader()
+		if a == "" {
+			return
+		}
+	} else if !x.ensureNode("d") {
+		return
+	}
+	rest := minus(all, []string{a})
+	// the promotion entry must not reach the old voters
+	x.C.Net.AddRule(&simnet.Rule{Name: "cut-old-voters", Drop: true, Match: func(m *mon.Msg, reply bool) bool {
+		if reply {
+			return false
+		}
+		for _, o := range rest {
+			if (m.From == a || m.From == "d") && m.To == o || m.From == o && (m.To == a || m.To == "d") {
+				return true
+			}
+		}
+		return false
+	}})
+	x.Step("partition {%s,d} | %v, then make d a voter at %s and write there", a, rest, a)
+	w1 := func() { x.memberOp(a, true, "d", true, 400*time.Millisecond) }
+	var wg sync.WaitGroup
+	wg.Add(1)
+	go func() { defer wg.Done(); w1() }()
+	time.Sleep(5 * time.Millisecond)
+	w := x.WritesAsync(2, a, 3, 400*time.Millisecond)
+	if len(rest) > 0 {
+		if l2 := x.C.WaitLeaderAmong(rest, 6*x.ET()+time.Second); l2 != "" {
+			x.Step("%s leads the old voters; write there", l2)
+			x.Writes(3, l2, 3, 500*time.Millisecond)
+		}
+	}
+	w()
+	wg.Wait()
+	x.NT("promote-split")
+	x.Step("heal")
+	x.C.Net.Heal()
+	time.Sleep(3 * x.ET())
+	if l := x.C.Leader(); l != "" {
+		x.Writes(4, l, 2, 500*time.Millisecond)
+	}
+	x.finishDirected()
+}
+
+func init() { Registry["w2.promotesplit"] = scenPromoteSplit }
